@@ -19,6 +19,7 @@ type tnode struct {
 	attrs    []wattr
 	children []*tnode
 	prefixed bool // written with a prefix instead of a default namespace declaration
+	raw      bool // text is ready-made XML (a whole subtree counted as one node), written as it is
 }
 
 const (
@@ -136,6 +137,10 @@ func escAttr(b *strings.Builder, s string) {
 // write renders the tree; defNS is the default namespace in scope, stanzaNS
 // the stream's stanza namespace (substituted for nsStanza).
 func (n *tnode) write(b *strings.Builder, defNS, stanzaNS string) {
+	if n.raw {
+		b.WriteString(n.text)
+		return
+	}
 	if n.name.Local == "" {
 		xml.EscapeText(b, []byte(n.text))
 		return
